@@ -171,14 +171,22 @@ def invariant(t, seen, what, phase=0):
                 (sorted(lst), sorted(nz)))
 
     def g_sums():
-        if not close(float(t.sum("whole")), float(D.sum())):
+        # sums are order dependent in floating point: compare within
+        # rounding noise of the summed magnitudes (entries may cancel)
+        A = np.abs(D)
+
+        def near(a, b, mag):
+            return a == b or abs(a - b) <= 1e-12 * max(float(mag), 1e-300)
+        if not near(float(t.sum("whole")), float(D.sum()), A.sum()):
             bad("sum", "sum(whole)=%r, matrix %r" % (t.sum("whole"),
                                                      D.sum()))
-        for axis, want in (("sample", D.sum(axis=0)),
-                           ("observation", D.sum(axis=1))):
+        for axis, want, mag in (("sample", D.sum(axis=0), A.sum(axis=0)),
+                                ("observation", D.sum(axis=1),
+                                 A.sum(axis=1))):
             got = np.asarray(t.sum(axis)).tolist()
             if len(got) != len(want) or not all(
-                    close(a, b) for a, b in zip(got, want.tolist())):
+                    near(a, b, g) for a, b, g in zip(got, want.tolist(),
+                                                     mag.tolist())):
                 bad("sum", "sum(%s)=%r, matrix %r" % (axis, got,
                                                       want.tolist()))
 
